@@ -113,6 +113,28 @@ def run_case(rng, tier, case):
                 case.check('rename.outputs_equal_up_to_relabelling', ok, bad=bad, renaming=maps)
             elif isinstance(r0.res, str) != isinstance(r1.res, str) and 'inaccurate' not in (r0.res, r1.res):
                 case.check('rename.value_equal', False, res=str(r0.res)[:20], res_renamed=str(r1.res)[:20], renaming=maps)
+    tops_ = [a for a in spec['assets'] if a['type'] not in ('StructuredAsset', 'LinkedAsset', 'ScaledAsset')]
+    if len(tops_) >= 2 and rng.random() < 0.4:
+        # names rotated among the assets (every name stays in use, but for another asset), the renamed portfolio set up on the SAME Timegrid object
+        # the original was set up on: same problem up to the renaming, same value
+        import copy as _copy
+        rot = _copy.deepcopy(spec)
+        names_ = [a['name'] for a in tops_]
+        sh_ = int(rng.integers(1, len(names_)))
+        mp_ = {n_: names_[(i_ + sh_) % len(names_)] for i_, n_ in enumerate(names_)}
+        for a in rot['assets']:
+            if a['name'] in mp_ and a['type'] not in ('StructuredAsset', 'LinkedAsset', 'ScaledAsset'):
+                a['name'] = mp_[a['name']]
+        rr = flow.run_portfolio(rot, timegrid=r0.built.timegrid)
+        if not rr.ok:
+            case.check('rename.rotated_names_on_used_grid_work', False, rotation=mp_, error=flow.describe_error(rr))
+        else:
+            case.feature('names_rotated_on_used_grid')
+            d = problem_diff(p0, Snap(rr.op), rtol=0., compare_mapping=False)
+            case.check('rename.rotated_names_same_problem', d is None, rotation=mp_, diff=d)
+            if r0.solved and rr.solved:
+                case.check('rename.rotated_names_same_value', abs(float(r0.res.value) - float(rr.res.value)) <= tolv * (1 + abs(float(r0.res.value))), value=float(r0.res.value),
+                           value_rotated=float(rr.res.value), rotation=mp_)
     if maps and p1 is not None and not has_struct and not any('Scaled' in t for t in gen.asset_types(spec)) and rng.random() < 0.5:
         # the renaming applied IN PLACE to the objects that were just used (node.name = ..., asset.name = ...), a new portfolio built from
         # them: the problem of the freshly built renamed objects
